@@ -425,4 +425,34 @@ def clientCall {σ ι β ρ ε} (utf8 : Bytes → Bool) (f : Icpt σ) (inner : I
       | .error _ => .transport
       | .panic => .panic)
 
+/-! ### server side: `service/router.rs` — `Routes::add_service(InterceptedService<S, F>)`.
+`NamedService for InterceptedService<S, I>` has `NAME = S::NAME`, the route is
+`/{NAME}/{*rest}` (axum/matchit: the catch-all does not match the empty string), anything else
+goes to the `unimplemented` fallback. -/
+
+def routeMatches (name path : Bytes) : Bool :=
+  ((47 :: name) ++ [47]).isPrefixOf path && ((47 :: name) ++ [47]).length < path.length
+
+/-- the `unimplemented` fallback: `Status::unimplemented("").into_http()` with an empty body; axum's
+top-level route future adds `content-length: 0` for the exactly-empty body. -/
+def unimplementedResponse : Option (Response Unit) :=
+  (statusIntoHttp () { code := 12, message := [], details := [], metadata := [] }).map
+    (fun r => { r with headers := insert (str "content-length") (str "0", false) r.headers })
+
+inductive Routed (σ ι β ρ ε : Type)
+  /-- the path names the intercepted service: exactly a `call` on it -/
+  | service (c : CallResult σ ι β ρ ε)
+  /-- the path names another registered service: neither interceptor nor wrapped service run -/
+  | other
+  /-- no route: the fallback answers; neither interceptor nor wrapped service run -/
+  | fallback (r : Option (Response Unit))
+
+/-- `Routes::call` for a router holding the intercepted service under `name` and some other
+service under `otherName` (distinct names). -/
+def routesCall {σ ι β ρ ε} (name otherName : Bytes) (f : Icpt σ) (inner : Inner ι β ρ ε) (s : σ) (i : ι)
+    (path : Bytes) (req : Request β) : Routed σ ι β ρ ε :=
+  if routeMatches name path then .service (call f inner s i req)
+  else if routeMatches otherName path then .other
+  else .fallback unimplementedResponse
+
 end Interceptor
